@@ -340,7 +340,33 @@ def c12(k, ctx):
                        "35 dB Eb/N0: noise cannot flip a sign (> 50 sigma)", "reference moments: public Modulator/Demodulator + the harness's own Gaussian source with sigma from the stated formula; bands of 3-4 % (10 standard errors)"]
 
 
-PIPELINES = {"C12": c12, "C14": c14, "C15": c15, "C18": c18, "C03": c03, "C04": c04, "C05": c05, "C01": c01, "C10": c10, "C08": c08, "C11": c11, "C02": c02, "C09": c09, "C17": c17}
+def c13(k, ctx):
+    ctx.rule = ("one case = one run of the real BerTest::run in a child process under a watchdog: worker counts {1,2,3,8} (thorough: 1,2,3,5,8,16) via CPU affinity, a scripted decoder with "
+                "per-worker outcome scripts and random 0-200 us delays, with/without the outer-code threshold, 1-2 Eb/N0 points, Reporter interval 0; plus fault injection: puncturer misfit "
+                "(stage error), interleaver misfit and 8PSK misfit (stage panics in every worker), decoder panicking in some workers; non-trivial = distinct runs with at least two workers or a fault")
+    ctx.tlc_mc("MC_BerEngine", "MC_BerEngine_thorough.cfg" if ctx.thorough else "MC_BerEngine.cfg")
+    ctx.tlc_mc("MC_BerEngine", "MC_BerEngine_bch.cfg")
+    ctx.tlc_mc("MC_BerEngine", "MC_BerEngine_live.cfg", coverage=False)                       # liveness: termination under weak fairness, all fault modes
+    ctx.tlc_mc("MC_BerEngine", "MC_BerEngine_neg.cfg", expect_violation=True)                 # collector keeps a sender + stage panic: blocked in recv (D7)
+    ctx.tlc_mc("MC_BerEngine", "MC_BerEngine_neg2.cfg", expect_violation=True)                # join().unwrap() on a panicked worker
+    ctx.vh("gen", "i2s", timeout=3000)
+    recs, rej = ctx.validate_search("Trace_C13")
+    ctx.require_events("BerRun")
+    for r in recs:
+        if r["cfg"]["W"] >= 2 or r["cfg"]["fault"] != "none":
+            ctx.nontrivial_keys.add(k.key(r["cfg"]))
+    ctx.extra["runs_by_fault"] = {f: sum(1 for r in recs if r["cfg"]["fault"] == f) for f in ("none", "puncturer_misfit", "interleaver_misfit", "psk8_misfit", "decoder_panic")}
+    ctx.extra["results"] = {f: sum(1 for r in recs if r["result"] == f) for f in ("ok", "error", "panic", "hang", "abort")}
+    ctx.extra["worker_counts"] = sorted({r["cfg"]["W"] for r in recs})
+    ctx.extra["frames_consumed"] = sum(s["frames"] for r in recs for s in r["stats"])
+    def short(r):
+        return {"cfg": r["cfg"], "result": r["result"], "stats": r["stats"], "reports": len(r["reports"]), "workers": [len(w) for w in r["workers"]]}
+    ctx.samples = [short(recs[3]), short(recs[-1])]
+    ctx.assumptions = ["TLC 1.8 + Json/IOUtils", "the scripted decoder is the only source of frame outcomes: it logs (decoder id, sequence number, flips, verdict, iterations); bit errors = flips relies on C12",
+                       "thread schedules of the real engine cannot be enumerated, only perturbed; every interleaving IS enumerated in BerEngine.tla", "watchdog: 20 s per run"]
+
+
+PIPELINES = {"C13": c13, "C12": c12, "C14": c14, "C15": c15, "C18": c18, "C03": c03, "C04": c04, "C05": c05, "C01": c01, "C10": c10, "C08": c08, "C11": c11, "C02": c02, "C09": c09, "C17": c17}
 NOT_YET = {}
 
 
